@@ -23,7 +23,8 @@ CALLBACKS = [("expr_true", r"^void ExpressionBuilder::expr_true\(\)"), ("expr_fa
              ("expr_assignment", r"^void ExpressionBuilder::expr_assignment\(kind_t op\)"), ("expr_unary", r"^void ExpressionBuilder::expr_unary\(kind_t unaryop\)"),
              ("expr_binary", r"^void ExpressionBuilder::expr_binary\(kind_t binaryop\)"), ("expr_nary", r"^void ExpressionBuilder::expr_nary\(kind_t kind, uint32_t num\)"),
              ("expr_ternary", r"^void ExpressionBuilder::expr_ternary\(kind_t ternaryop, bool firstMissing\)"),
-             ("expr_inline_if", r"^void ExpressionBuilder::expr_inline_if\(\)"), ("expr_comma", r"^void ExpressionBuilder::expr_comma\(\)")]
+             ("expr_inline_if", r"^void ExpressionBuilder::expr_inline_if\(\)"), ("expr_comma", r"^void ExpressionBuilder::expr_comma\(\)"),
+             ("expr_call_end", r"^void ExpressionBuilder::expr_call_end\(uint32_t n\)")]
 
 
 def write(work, name, text):
@@ -69,7 +70,7 @@ def build(tier, work, builder):
                       ("pre_increment", ["ExpressionBuilder::expr_pre_increment"]), ("post_decrement", ["ExpressionBuilder::expr_post_decrement"]),
                       ("pre_decrement", ["ExpressionBuilder::expr_pre_decrement"]), ("builtin1", ["ExpressionBuilder::expr_builtin_function1"]),
                       ("builtin2", ["ExpressionBuilder::expr_builtin_function2"]), ("builtin3", ["ExpressionBuilder::expr_builtin_function3"]),
-                      ("nary", ["ExpressionBuilder::expr_nary"]), ("ternary", ["ExpressionBuilder::expr_ternary", "ExpressionBuilder::make_constant"]),
+                      ("call_end", ["ExpressionBuilder::expr_call_end (function calls and process-set lookups)"]), ("nary", ["ExpressionBuilder::expr_nary"]), ("ternary", ["ExpressionBuilder::expr_ternary", "ExpressionBuilder::make_constant"]),
                       ("literals", ["ExpressionBuilder::expr_nat", "expr_true", "expr_false", "expr_double", "expr_deadlock", "ExpressionBuilder::make_constant"])):
         jobs.append(F.Job("c02_" + name, "h_c02_" + name, [obj, hobj], timeout=300, unwind=10,
                           functions=fns + ["ExpressionFragments::operator[]/push/pop", "expression_t::create_*"], bound_note="fragment stack of depth <= 6"))
